@@ -53,8 +53,8 @@ def copy_ecu(ecu_or_glob, source_db, target_db):
             if attribute not in target_db.ecu_defines:
                 target_db.add_ecu_defines(
                     copy.deepcopy(attribute), copy.deepcopy(source_db.ecu_defines[attribute].definition))
-                target_db.add_define_default(
-                    copy.deepcopy(attribute), copy.deepcopy(source_db.ecu_defines[attribute].defaultValue))
+                target_db.ecu_defines[attribute].set_default(
+                    copy.deepcopy(source_db.ecu_defines[attribute].defaultValue))
             # only default value exists in source but is different to default value in target
             if attribute not in ecu.attributes and ecu.attribute(attribute, source_db) is not None and \
                     ecu.attribute(attribute, source_db) != ecu.attribute(attribute, target_db):
@@ -135,10 +135,11 @@ def copy_signal(signal_glob, source_db, target_db):
             target_db.add_signal(target_signal)
 
             for attribute in source_db.signal_defines:
-                target_db.add_signal_defines(
-                    copy.deepcopy(attribute), copy.deepcopy(source_db.signal_defines[attribute].definition))
-                target_db.add_define_default(
-                    copy.deepcopy(attribute), copy.deepcopy(source_db.signal_defines[attribute].defaultValue))
+                if attribute not in target_db.signal_defines:
+                    target_db.add_signal_defines(
+                        copy.deepcopy(attribute), copy.deepcopy(source_db.signal_defines[attribute].definition))
+                    target_db.signal_defines[attribute].set_default(
+                        copy.deepcopy(source_db.signal_defines[attribute].defaultValue))
                 # update enum data types if needed:
                 if source_db.signal_defines[attribute].type == 'ENUM':
                     temp_attr = source_signal.attribute(attribute, db=source_db)
@@ -199,8 +200,8 @@ def copy_frame(frame_id, source_db, target_db):
             if attribute not in target_db.frame_defines:
                 target_db.add_frame_defines(
                     copy.deepcopy(attribute), copy.deepcopy(source_db.frame_defines[attribute].definition))
-                target_db.add_define_default(
-                    copy.deepcopy(attribute), copy.deepcopy(source_db.frame_defines[attribute].defaultValue))
+                target_db.frame_defines[attribute].set_default(
+                    copy.deepcopy(source_db.frame_defines[attribute].defaultValue))
             # only default value exists in source but is different to default value in target
             if attribute not in frame.attributes and frame.attribute(attribute, source_db) is not None and \
                     frame.attribute(attribute, source_db) != frame.attribute(attribute, target_db):
@@ -218,10 +219,11 @@ def copy_frame(frame_id, source_db, target_db):
             for attribute in source_db.signal_defines:
                 if sig.attribute(attribute, source_db) is None:
                     continue
-                target_db.add_signal_defines(
-                    copy.deepcopy(attribute), copy.deepcopy(source_db.signal_defines[attribute].definition))
-                target_db.add_define_default(
-                    copy.deepcopy(attribute), copy.deepcopy(source_db.signal_defines[attribute].defaultValue))
+                if attribute not in target_db.signal_defines:
+                    target_db.add_signal_defines(
+                        copy.deepcopy(attribute), copy.deepcopy(source_db.signal_defines[attribute].definition))
+                    target_db.signal_defines[attribute].set_default(
+                        copy.deepcopy(source_db.signal_defines[attribute].defaultValue))
                 # update enum data types if needed:
                 if source_db.signal_defines[attribute].type == 'ENUM':
                     temp_attr = sig.attribute(attribute, db=source_db)
